@@ -127,7 +127,8 @@ pub fn run_c11(run: &Run) {
     run.set_rule("(a) store level: the breadth-first exploration of the store (see C06) with the memo invariant evaluated on every transition through the cfg(adf_obdd_verif) dump: every ite/restrict memo entry, variable list and cached count must be semantically right. (b) ADF level: for every ADF of A(2) and F(3,1), native and bridged, EVERY sequence of public calls up to the stated length from a 15-call alphabet (all semantics, counting, nogood search with four heuristics incl. seeded Rand, formula building and restriction on the shared diagram); the last answer must equal the answer of the same call on a fresh object (truth values, and functions of returned handles), every earlier answer must still read the same at the end, the memo tables must be right, and a second run of the sequence on another fresh object must reproduce all raw answers and the node table exactly. Non-trivial: sequences of length >= 2.");
     run.assume("call sequences up to length 3 (quick) / 4 on A(2) (thorough); model lists are compared with the fresh object's as multisets (order is only asserted for the determinism clause)");
     // (a)
-    let flags = Flags { canonical: false, functions: false, memo: true, queries: false };
+    // an operation's answer must not depend on the history either: the result function is judged on every transition
+    let flags = Flags { canonical: false, functions: true, memo: true, queries: false };
     let plan: Vec<(usize, usize, bool)> = if run.quick() { vec![(2, 6, false), (3, 5, false), (2, 4, true)] } else { vec![(2, 7, false), (3, 6, false), (2, 5, true)] };
     for (vars, depth, memo_key) in plan {
         let cfg = Explore { vars, depth, with_memo_key: memo_key, reimports: true, flags, init: Init::Empty, name: format!("store V={}{} with memo audit", vars, if memo_key { " (keyed by node table + memo tables)" } else { "" }) };
